@@ -123,8 +123,8 @@ CHECKS["C17"] = dict(
     "of every row deleted, declared columns trimmed from the end) denotes the grid spec on EVERY coherent run-length state and leaves a coherent state "
     "(rstrip_refines), so idempotence and value preservation hold of the run-length model too (rstrip_table_idempotent, rstrip_table_keeps). "
     "optimize_width has a run-length model (tblOptimize) whose result is proved coherent with no row wider than the declared columns "
-    "(optimize_width_coherent_and_fits) and keeps every value at its coordinates (optimize_width_keeps_values). Correspondence: Table.rstrip / transpose / optimize_width / set_span / del_span vs the Lean models (run structure, grid, "
-    "span attributes). Oracle only: idempotence and 'only trailing' for optimize_width, compositions, merged cells as office applications store them (covered cells in repeated runs) under rstrip / optimize_width, CSV round trip.",
+    "(optimize_width_coherent_and_fits) and keeps every value at its coordinates (optimize_width_keeps_values) and is idempotent on the run-length state (optimize_width_idempotent). Correspondence: Table.rstrip / transpose / optimize_width / set_span / del_span vs the Lean models (run structure, grid, "
+    "span attributes). Oracle only: the 'only trailing' clause for optimize_width, compositions, merged cells as office applications store them (covered cells in repeated runs) under rstrip / optimize_width, CSV round trip.",
     note=TABLE_NOTE + "transpose is modelled at the grid level (the code works on the expanded cells). Matrices are "
     "compared modulo trailing empty rows/columns for transpose (a column declared beyond the widest row holds no content). CSV: known finding C17-F3 "
     "(value classes CSV cannot carry; csv.Sniffer) is reported at every run.",
